@@ -540,7 +540,9 @@ def run(ctx):
     libdir = ctx.lib()
     T = parse_tables()
     ctx.regen("translate_c09_getsim.py")
-    ctx.prove("C09", extra_targets=["C09/Run.vo"])
+    ctx.regen("translate_c09_access.py")
+    ctx.regen("translate_schemes.py")        # Gen/Schemes.v: the corrector2 word used by C09_corrector2_inverse_defect_is_eps2_h4
+    ctx.log("regenerated"); ctx.prove("C09", extra_targets=["C09/Run.vo"]); ctx.log("proved")
     sys.path.insert(0, libdir)
     correspondence(ctx, libdir, T)
     probes(ctx, libdir)
